@@ -2010,6 +2010,9 @@ impl<'a> World<'a> {
         let uring = self.cfg.is_uring();
         let td = self.teardown_seq.unwrap_or(u64::MAX);
         let mut fails = Vec::new();
+        // a future that was leaked by `guard_held_storage` keeps the driver alive (it owns a handle
+        // to it): nothing is torn down then, and what stays allocated is the harness' doing
+        let driver_leaked = self.ops.iter().any(|o| o.poisoned);
         // release events per operation
         let mut buf_drops: BTreeMap<u32, Vec<u64>> = BTreeMap::new();
         let mut fd_closes: BTreeMap<u32, Vec<u64>> = BTreeMap::new();
@@ -2112,7 +2115,7 @@ impl<'a> World<'a> {
                         msg: format!("operation storage of op {i} freed {} times", s.frees.len()),
                     });
                 }
-                if s.frees.is_empty() {
+                if s.frees.is_empty() && !driver_leaked {
                     fails.push(Fail {
                         oracle: "lifetime",
                         class: format!("leak:{name}"),
@@ -2139,7 +2142,7 @@ impl<'a> World<'a> {
                 }
             }
             let nd = buf_drops.get(&o.buf_id).map(|v| v.len()).unwrap_or(0);
-            if nd != 1 && !matches!(o.spec.kind, Kind::Accept | Kind::Multi) {
+            if nd != 1 && !(nd == 0 && driver_leaked) && !matches!(o.spec.kind, Kind::Accept | Kind::Multi) {
                 fails.push(Fail {
                     oracle: "lifetime",
                     class: format!("{}:{name}", if nd == 0 { "buffer-leak" } else { "buffer-double-drop" }),
@@ -2152,7 +2155,7 @@ impl<'a> World<'a> {
                 continue;
             }
             let nc = fd_closes.get(&r.fd_id).map(|v| v.len()).unwrap_or(0);
-            if nc != 1 {
+            if nc != 1 && !(nc == 0 && driver_leaked) {
                 fails.push(Fail {
                     oracle: "lifetime",
                     class: if nc == 0 { "descriptor-leak".into() } else { "descriptor-double-close".into() },
